@@ -117,11 +117,19 @@ TEMPLATES = ("single", "prod_sum", "mixture", "kron3")
 
 def sym_subset(vc, vs, name="Z", nonempty=True):
     """a symbolic set Z with Z <= {vs}; non-empty unless stated"""
-    Z = vc.set(name)
-    k = z3.Int(vc.path.fresh_name("k_sub"))
-    vc.assume(z3.ForAll([k], z3.Implies(z3.Select(Z.arr, k), z3.Or(*[k == v for v in vs]))))
+    # built as the union of {v_i} guarded by a free membership flag m_i: every subset of {vs} is obtained, and the term is
+    # enumerable, so its cardinality is computed exactly (no uninterpreted abstraction on these paths)
+    from engine.values import SymSet
+    arr = EMPTY
+    flags = []
+    for i, v in enumerate(vs):
+        m = vc.bool(f"{name}_has_{i}")
+        flags.append(m)
+        arr = z3.SetUnion(arr, z3.If(m, z3.Store(EMPTY, to_z3(v), True), EMPTY))
     if nonempty:
-        vc.assume(z3.Or(*[z3.Select(Z.arr, v) for v in vs]))
+        vc.assume(z3.Or(*flags))
+    Z = SymSet(arr)
+    vc.inputs[name] = Z
     return Z
 
 
